@@ -409,7 +409,7 @@ class Check:
         self.broken.append(what)
 
     # -- coq
-    def run_proofs(self, prop_file, proof_files, extra_targets=()):
+    def run_proofs(self, prop_file, proof_files, extra_targets=(), extra_props=()):
         """Build proof files, compile the property file, record obligations/assumptions.
         A failure here is a broken proof obligation: reported as a violation by the caller via
         self.proof_ok == False (after the failing-input search)."""
@@ -424,7 +424,13 @@ class Check:
         if ok and not bad:
             okp, thms, assum, plog = coq_props(prop_file)
             self.proof_log += plog
-        stated, closed, names = count_obligations(list(proof_files) + [prop_file])
+            for ep in extra_props:
+                ok2, thms2, assum2, plog2 = coq_props(ep)
+                okp = okp and ok2
+                thms = thms + thms2
+                assum = assum + "\n" + assum2
+                self.proof_log += plog2
+        stated, closed, names = count_obligations(list(proof_files) + [prop_file] + list(extra_props))
         self.coverage["obligations"] = stated
         self.coverage["discharged"] = closed if (ok and okp and not bad) else 0
         self.coverage["property_theorems"] = thms
